@@ -272,6 +272,29 @@ func (e *Env) Do(method, path string, q url.Values, body []byte) (code int, rbod
 	return rec.Code, rec.Body.Bytes(), rec.Header(), nil
 }
 
+// DoTagged is Do with a request id that the backend records with the RPC it receives for this request.
+func (e *Env) DoTagged(id, method, path string, q url.Values, body []byte) (code int, rbody []byte, err error) {
+	h, ok := e.Inst.Handlers[e.Prefix+path]
+	if !ok {
+		return 404, nil, nil
+	}
+	target := e.Prefix + path
+	if q != nil {
+		target += "?" + q.Encode()
+	}
+	req := httptest.NewRequest(method, target, bytes.NewReader(body))
+	req = req.WithContext(context.WithValue(req.Context(), ReqIDKey{}, id))
+	rec := httptest.NewRecorder()
+	defer func() {
+		if r := recover(); r != nil {
+			err = fmt.Errorf("panic in %s %s: %v", method, path, r)
+			code = 0
+		}
+	}()
+	h.ServeHTTP(rec, req)
+	return rec.Code, rec.Body.Bytes(), nil
+}
+
 // DoRaw is Do with a raw query string (malformed parameters).
 func (e *Env) DoRaw(method, path, rawQuery string, body []byte) (code int, rbody []byte, err error) {
 	h, ok := e.Inst.Handlers[e.Prefix+path]
